@@ -294,7 +294,7 @@ func sizeBucket(m uint32) string {
 }
 
 func TestPropLower(t *testing.T) {
-	hx.Check(t, "lower", hx.N(60, 1500), func(t *rapid.T) {
+	hx.Check(t, "lower", hx.N(100, 800), func(t *rapid.T) {
 		c := genLower(t)
 		if err := execute("lower", c); err != nil {
 			hx.Failf(t, "lower", c, "%v", err)
@@ -303,7 +303,7 @@ func TestPropLower(t *testing.T) {
 }
 
 func TestPropPend(t *testing.T) {
-	hx.Check(t, "pend", hx.N(50, 1200), func(t *rapid.T) {
+	hx.Check(t, "pend", hx.N(50, 600), func(t *rapid.T) {
 		c := genPend(t)
 		if err := execute("pend", c); err != nil {
 			hx.Failf(t, "pend", c, "%v", err)
@@ -312,13 +312,18 @@ func TestPropPend(t *testing.T) {
 }
 
 // enumLowerCase is the k-th stream of the single-split enumeration of class
-// lower: at most 2000 bytes, new msize 24 / 64 / 40 / 100, i.e. at least 2.5
-// (msize 100) and up to 10 (msize 24) receive buffers of the new size.
+// lower: at most 1200 bytes (quick) or 2000 bytes (thorough), new msize 24 / 64 /
+// 40 / 100, i.e. between 1.5 (msize 100, quick) and 10 (msize 24, thorough)
+// receive buffers of the new size.
 func enumLowerCase(k int) *Case {
 	c := &Case{Side: "lower", Msize: []uint32{minNegoMsize, 64, 40, 100}[k%4], Dotu: ((k+1)/2)%2 == 1, Seed: hx.Mix(hx.Seed, 0xC13F, uint64(k))}
 	c.SrvMsize = lowerSrv[k%len(lowerSrv)]
 	c.TagBase = uint16(hx.Mix(c.Seed, 1) % 60000)
-	detFrames(c, c.Seed, 21+9, 1990) // Tversion (19 or 21 bytes) and the closing Tflush
+	limit := 1200
+	if hx.Thorough() {
+		limit = 1990
+	}
+	detFrames(c, c.Seed, 21+9, limit) // Tversion (19 or 21 bytes) and the closing Tflush
 	return c
 }
 
@@ -333,16 +338,16 @@ func enumPendCase(k int) *Case {
 func TestEnumLowerSplits(t *testing.T) {
 	ns := 2
 	if hx.Thorough() {
-		ns = 4 * hx.NShards
+		ns = 2 * hx.NShards
 	}
 	enumerate(t, "lower-single-split", ns, enumLowerCase)
-	hx.Exhaustive(fmt.Sprintf("server: every single split point of %d streams of <= 2000 bytes that start with a Tversion lowering the msize to 24 / 64 / 40 / 100 and go on with a tail of valid frames longer than the new 8 x msize", ns))
+	hx.Exhaustive(fmt.Sprintf("server: every single split point of %d streams of <= 1200 (quick) / 2000 (thorough) bytes that start with a Tversion lowering the msize to 24 / 64 / 40 / 100 and go on with a tail of valid frames longer than the new 8 x msize", ns))
 }
 
 func TestEnumPendSplits(t *testing.T) {
 	ns := 1
 	if hx.Thorough() {
-		ns = 3 * hx.NShards
+		ns = hx.NShards
 	}
 	enumerate(t, "pend-single-split", ns, enumPendCase)
 	hx.Exhaustive(fmt.Sprintf("server with Maxpend 1 / 2 / 4: every single split point of %d request streams of <= 1200 bytes", ns))
